@@ -5,11 +5,15 @@
   `exec locked snap ls (initSys init) = some s` reads: `s` is the state of process + directory
   after the schedule `ls` — any interleaving of pairing changes (`mutate`, each submitting a save
   job), extra save jobs (`spawn`), steps of any job (`adv j`), raised errors at any I/O step
-  (`fault j`) and a process kill (`crash`) — started with `init` in the state file.  Every theorem
+  (`fault j`), state changes with no save after them (`change`, absent from the repaired code) and a
+  process kill (`crash`) — started with `init` in the state file.  Every theorem
   quantifies over all schedules, all numbers of jobs and every serialisation function `snap`.
 -/
 import Proofs.Persist
 namespace Hap.Persist
+
+/-- a concrete two-chunk serialisation -/
+def demoSnap (v : Nat) : Content := [2 * v, 2 * v + 1]
 
 /-- Atomicity, for every schedule, fault sequence and crash point, with or without the lock:
     the state file holds its initial content or the *complete* serialisation of a state version
@@ -46,8 +50,9 @@ theorem C15_mutex (snap : Nat → Content) (init : Option Content) (ls : List La
   mutex_unique (mutex_exec ls (mutex_init init) h) hi hj
 
 /-- Convergence for the repaired code (lock around the whole body, snapshot inside): for every
-    fault-free schedule — any number of pairing changes, each submitting a job, any number of
-    extra jobs, interleaved in any order — once at least one job was submitted and every
+    fault-free schedule in which every state change submits its save afterwards (`mutate`; no bare
+    `change`) — any number of pairing changes, any number of extra jobs, interleaved in any
+    order — once at least one job was submitted and every
     submitted job has finished, the state file is the complete serialisation of the *latest*
     state version. -/
 theorem C15_converge (snap : Nat → Content) (init : Option Content) (ls : List Label) (s : Sys)
@@ -62,6 +67,50 @@ theorem C15_converge (snap : Nat → Content) (init : Option Content) (ls : List
   · rcases hdone j with e | ⟨r, e⟩ <;> simp [e, Pc.pre] at hc
   · rcases hdone j with e | ⟨r, e⟩ <;> simp [e, Pc.carries] at hc
   · exact hc
+
+/-- What the order "change the state, then submit the save" buys, in full generality (repaired
+    code): after an arbitrary history — faults, failed saves, even state changes whose save was
+    submitted too early or never (`change`) — one save submitted *after* the last state change,
+    followed by fault-free steps only, brings the file to the latest state once every job has
+    finished.  Every save-scheduling site of the code has this order (`pair`, `unpair`,
+    pair-verify's identifier back-fill, `config_changed`, `async_start`). -/
+theorem C15_converge_after_save (snap : Nat → Content) (init : Option Content)
+    (hist post : List Label) (l : Label) (s1 s : Sys)
+    (h1 : exec true snap hist (initSys init) = some s1)
+    (hl : l = .spawn ∨ l = .mutate)
+    (h2 : exec true snap (l :: post) s1 = some s) (hq : ∀ l' ∈ post, l'.quiet = true)
+    (hjobs : ∃ j, s.jobs j ≠ .unspawned) (hdone : Quiescent s) :
+    s.target = some (snap s.ver) := by
+  have ha := atomInv_exec hist (atomInv_init snap init) h1
+  have hm := mutex_exec hist (mutex_init init) h1
+  simp only [exec] at h2
+  split at h2
+  · next s2 hs2 =>
+    have hc2 : Conv snap s2 := by
+      unfold step at hs2
+      split at hs2
+      · cases hs2
+      · rcases hl with hl | hl <;> subst hl <;> injection hs2 with hs2 <;> subst hs2
+        · exact conv_spawn 0
+        · exact conv_spawn 1
+    have hc := conv_exec post (atomInv_step ha hs2) (mutex_step hm hs2) hc2 hq h2
+    rcases hc with hc | ⟨j, hc⟩ | ⟨j, hc⟩ | ⟨hc, _⟩
+    · obtain ⟨j, hj⟩ := hjobs
+      exact absurd (hc j) hj
+    · rcases hdone j with e | ⟨r, e⟩ <;> simp [e, Pc.pre] at hc
+    · rcases hdone j with e | ⟨r, e⟩ <;> simp [e, Pc.carries] at hc
+    · exact hc
+  · cases h2
+
+/-- The opposite order at a single site breaks convergence even with the lock: the save is
+    submitted, the worker runs it to the end at once, and only then the state is changed
+    (`spawn; …; change`): all jobs have finished and the file is one version behind.  (The same
+    trace is what a site that never submits a save looks like after an earlier save.) -/
+theorem C15_save_before_change_counterexample :
+    ∃ s, exec true demoSnap ([.spawn] ++ List.replicate 9 (.adv 0) ++ [.change]) (initSys none)
+        = some s ∧ quiescentB s = true ∧ s.ver = 1 ∧ s.target = some (demoSnap 0) ∧
+      s.target ≠ some (demoSnap s.ver) := by
+  refine ⟨_, rfl, by decide, by decide, by decide, by decide⟩
 
 /-- The lock never wedges the saving (repaired code, all schedules, faults included): as long as
     the process lives and some submitted job has not finished, some job can take a step — the
@@ -89,9 +138,6 @@ theorem C15_progress (snap : Nat → Content) (init : Option Content) (ls : List
       cases hpc : s.jobs j <;> simp_all [Pc.inCS, Pc.isDone, adv]
 
 /-! ### the code as shipped (no lock): the reordering counterexample -/
-
-/-- a concrete two-chunk serialisation -/
-def demoSnap (v : Nat) : Content := [2 * v, 2 * v + 1]
 
 /-- pairing 1 (job 0 submitted); job 0 creates its temp and snapshots version 1; pairing 2 (job 1
     submitted); job 1 runs start to finish and installs version 2; job 0 resumes, writes its stale
